@@ -428,6 +428,20 @@ INSERT INTO z SELECT i, i%%13, CASE i%%3 WHEN 0 THEN 'k'||(i%%5) WHEN 1 THEN 'K'
 			`CREATE TABLE g11 (a REFERENCES gp (x), b AS (5), c)`,
 			`INSERT INTO g11 (a, c) VALUES (1, 'c1'), (2, 'c2')`,
 		}},
+		{"permuted-unique-and-primary-key", []string{
+			// a UNIQUE constraint over the key columns in ANOTHER order, before and after the PRIMARY KEY: it is an index of
+			// its own, the table is stored in the PRIMARY KEY's order
+			`CREATE TABLE tr1 (album, pos, title, UNIQUE (pos, album), PRIMARY KEY (album, pos)) WITHOUT ROWID`,
+			`INSERT INTO tr1 VALUES ('amber', 7, 'seven'), ('amber', 2, 'two'), ('blue', 1, 'one'), (3, 'x', 'mixed')`,
+			`CREATE TABLE tr2 (album, pos, title, PRIMARY KEY (album, pos), UNIQUE (pos, album)) WITHOUT ROWID`,
+			`INSERT INTO tr2 VALUES ('amber', 7, 'seven'), ('amber', 2, 'two'), ('blue', 1, 'one'), (3, 'x', 'mixed')`,
+			`CREATE TABLE tr3 (a, b, c, v, UNIQUE (c, a, b), UNIQUE (b, c, a), PRIMARY KEY (a, b, c)) WITHOUT ROWID`,
+			`INSERT INTO tr3 VALUES (1, 'two', 3.5, 'v1'), ('one', 2, x'03', 'v2'), (1, 2, 3, 'v3')`,
+			`CREATE TABLE tr4 (album, pos, title, UNIQUE (pos, album), PRIMARY KEY (album, pos))`,
+			`INSERT INTO tr4 VALUES ('amber', 7, 'seven'), ('amber', 2, 'two'), ('blue', 1, 'one')`,
+			`CREATE TABLE tr5 (album COLLATE NOCASE, pos, title, UNIQUE (pos, album COLLATE BINARY), PRIMARY KEY (album, pos)) WITHOUT ROWID`,
+			`INSERT INTO tr5 VALUES ('amber', 7, 'seven'), ('AMBER', 2, 'two'), ('blue', 1, 'one')`,
+		}},
 		{"minimal-cells", func() []string {
 			// records without a body (NULL, the constants 0 and 1, '' and x''): cells of 4 bytes, more cells per page than
 			// any other content allows
